@@ -232,7 +232,17 @@ class Run:
         hits = grep_forbidden()
         if hits:
             raise Infra(f"forbidden tokens in Lean sources: {hits[:5]}")
-        ok, log = lake_build()
+        # hand-written library (models, lemmas, all property files, driver utilities) + the generated modules THIS property
+        # depends on; generated modules of other properties (re-translated from whatever tree their last run looked at)
+        # are not this property's obligations
+        targets = []
+        for sub in ("Model", "Lemmas", "Props"):
+            for f in sorted(os.listdir(os.path.join(LEAN, "RenoVerif", sub))):
+                if f.endswith(".lean"):
+                    targets.append(f"RenoVerif.{sub}.{f[:-5]}")
+        targets.append("RenoVerif.Driver.Util")
+        targets += [m[:-5].replace("/", ".") for m in gen_modules]
+        ok, log = lake_build(targets)
         res = dict(build_ok=ok, log=log[-3000:] if not ok else "")
         if ok:
             a = audit(list(modules) + list(gen_modules))
@@ -242,7 +252,7 @@ class Run:
         self.cov["obligations"] = res.get("obligations", 0)
         self.cov["discharged"] = res.get("discharged", 0)
         self.cov["nonvacuity_examples"] = res.get("examples", 0)
-        self.cov["checker_cmd"] = "cd /verif/lean && lake build && lake env lean <#print axioms of every theorem in " + ", ".join(list(modules) + list(gen_modules)) + ">"
+        self.cov["checker_cmd"] = "cd /verif/lean && lake build <Model/*, Lemmas/*, Props/*" + "".join(", " + m for m in gen_modules) + "> && lake env lean <#print axioms of every theorem in " + ", ".join(list(modules) + list(gen_modules)) + ">"
         self.cov["theorems"] = res.get("names", [])
         if self.tier == "thorough" and ok:
             mods = [m[:-5].replace("/", ".") for m in list(modules) + list(gen_modules)]
